@@ -25,7 +25,7 @@ RULE = ('histories of Index calls (assignment, lookup, get, deletion, pop, popit
         'runs; distinct_nontrivial = distinct (operation, outcome class, key class) cells + distinct schedules with a '
         'preemption inside an operation')
 DISTINCT = ('cells', 'schedules')
-REQUIRED = ('calls_judged', 'file_backed_values', 'reopen_events', 'pickle_events', 'fanout_indexes', 'django_indexes',
+REQUIRED = ('histories_with_a_key_and_its_stored_form_as_bytes', 'calls_judged', 'file_backed_values', 'reopen_events', 'pickle_events', 'fanout_indexes', 'django_indexes',
             'presence_schedules', 'presence_lookups', 'atomicity_schedules', 'free_runs', 'exceptions_matched',
             'lookups_overlapping_replacement', 'replacements_run_in_front_of_a_file_open',
             'updates_from_failing_iterables', 'blocks_left_by_KeyboardInterrupt', 'blocks_left_by_GeneratorExit',
@@ -34,6 +34,11 @@ ASSUMPTIONS = ('bool and NaN keys are not generated (OrderedDict unifies True wi
 
 T = 64
 KEYS = ['a', 'b', 'c', '', 1, 1.0, -2, 0, -0.0, 2**70, (1, 'x'), ('a', None), b'k', 'k', None, 2.5, 10**15 + 1]
+# a composite key and the bytes key that equals its stored (pickled) form are different keys of the mapping
+import pickle as _pickle
+import pickletools as _pickletools
+TWINS = {k: _pickletools.optimize(_pickle.dumps(k, protocol=_pickle.HIGHEST_PROTOCOL)) for k in ((1, 'x'), None)}
+KEYS += list(TWINS.values())
 
 
 def plan(tier):
@@ -75,6 +80,11 @@ def history(dc, sc, res, rng, label):
     n = [0]
     extra = []
     keys = rng.sample(KEYS, rng.randrange(4, 10))
+    for k, twin in TWINS.items():
+        if (k in keys) != (twin in keys) and rng.random() < 0.6:
+            keys += [k if twin in keys else twin]
+    if any(k in keys and t in keys for k, t in TWINS.items()):
+        res.count('histories_with_a_key_and_its_stored_form_as_bytes')
 
     def val():
         n[0] += 1
